@@ -1884,3 +1884,73 @@ def _plate_thickness(E, X):
             if any(m.is_Mul and m.has(X) and m.has(n) for m in sp.preorder_traversal(E)):
                 return n.base
     return None
+
+
+def analytic_profile_guard(P, rep, rule="EXPR.massconserving.guard"):
+    """C20, mass-conserving slab: when the analytic profile is used at all"""
+    rep.rule(rule, "MassConserving::get_temperature evaluates the analytic profile (which runs from its minimum temperature to its ambient "
+                   "temperature) only under `minimum < ambient` of exactly the two values it hands to get_temperature_analytic; otherwise the "
+                   "incoming temperature is kept - a profile with the end members the wrong way round lies above max(ambient, adiabat)")
+    A = P.func("WorldBuilder::Features::SubductingPlateModels::Temperature::MassConserving::get_temperature_analytic")
+    G = P.func("WorldBuilder::Features::SubductingPlateModels::Temperature::MassConserving::get_temperature")
+    # roles of the callee's parameters by name of the parameter in its own definition is avoided: minimum = the parameter the lower side
+    # takes at x = 0, ambient = the one it tends to (decided by EXPR.massconserving.bottom); here they are located by those two facts
+    symb = norm.Sym(P, A, inline_locals=False, inline_consts=True)
+    tmin_i = amb_i = None
+    for a in A.walk():
+        if a.get("k") == "BinaryOperator" and a.get("op") == "=" and any(
+                y.get("k") == "CallExpr" and P.d(y.get("callee")).get("qn") in ("std::erfc", "erfc") for y in A.walk(a["c"][1])):
+            try:
+                E = symb(a["c"][1])
+            except Exception:
+                continue
+            pos = {q: sp.Symbol("p_" + str(q).replace("@", "_").replace(".", "_"), positive=True) for q in E.free_symbols}
+            back = {v: k_ for k_, v in pos.items()}
+            Ep = E.xreplace(pos)
+            xs = [q for q in E.free_symbols if any(n_.func in (sp.erfc,) and n_.has(q) for n_ in sp.preorder_traversal(E))]
+            for q in xs:
+                k_ = symb.keys.get(q)
+                if k_ in A.params:
+                    try:
+                        v0 = sp.simplify(Ep.subs(pos[q], 0))
+                        vinf = sp.limit(Ep, pos[q], sp.oo)
+                    except Exception:
+                        continue
+                    v0, vinf = back.get(v0), back.get(vinf)
+                    if v0 is not None and vinf is not None and v0 != vinf and symb.keys.get(v0) in A.params and symb.keys.get(vinf) in A.params:
+                        tmin_i, amb_i = A.params.index(symb.keys[v0]), A.params.index(symb.keys[vinf])
+    if tmin_i is None:
+        raise AnalysisBroken("%s: minimum / ambient parameters not identified" % A.qn)
+    calls = [c for c in G.walk() if c.get("k") == "CXXMemberCallExpr" and c.get("callee") == A.key]
+    if not calls:
+        raise AnalysisBroken("%s: no call of get_temperature_analytic" % G.qn)
+    n = 0
+    R = lambda e: norm.render(P, e, nocast=True).replace(" ", "")
+    for c in calls:
+        args = c["c"][1:]
+        tmin_a, amb_a = R(args[tmin_i]), R(args[amb_i])
+        n += 1
+        guard = None
+        for a in G.ancestors(c):
+            if a.get("k") == "IfStmt" and any(y is c for y in G.walk(a["c"][1])):
+                cnd = sc(a["c"][0])
+                if cnd.get("k") == "BinaryOperator" and cnd.get("op") in ("<", "<=", ">", ">="):
+                    l_, r_ = R(cnd["c"][0]), R(cnd["c"][1])
+                    if {l_.strip("()"), r_.strip("()")} & {tmin_a, amb_a} or tmin_a in l_ + r_ or amb_a in l_ + r_:
+                        guard = (a, cnd, l_.strip("()"), r_.strip("()"))
+                        break
+        if guard is None:
+            rep.violation(rule, "get_temperature_analytic(%s, %s) is not guarded by a comparison of its end members" % (tmin_a, amb_a), G.nloc(c), G.qn,
+                          norm.render(P, c)[:120], "with the minimum above the ambient temperature the profile lies above its warm end member",
+                          key=rule + "|missing", witness="a young, slow slab deep in its tip taper")
+            continue
+        a, cnd, l_, r_ = guard
+        ok = (cnd["op"] in ("<", "<=") and l_ == tmin_a and r_ == amb_a) or (cnd["op"] in (">", ">=") and l_ == amb_a and r_ == tmin_a)
+        if ok:
+            rep.ok(rule, "analytic profile under `%s`, the end members it is called with" % norm.render(P, cnd)[:60], G.nloc(a), G.qn)
+        else:
+            rep.violation(rule, "the analytic profile of (%s, %s) is used under `%s`" % (tmin_a, amb_a, norm.render(P, cnd)[:80]), G.nloc(a), G.qn,
+                          norm.render(P, cnd)[:120], "the condition is not `minimum < ambient` of the values handed to the profile: for some inputs the "
+                          "profile is evaluated with its end members the wrong way round and exceeds max(ambient, adiabat)",
+                          key=rule + "|guard", witness="adiabatic heating on, a young slow slab, points deep in the tip taper")
+    rep.floor(rule, n, 1, "calls of the analytic profile")
